@@ -117,7 +117,7 @@ def run(ctx):
                 "definitions), alignment, location-counter skips, repeats (half of them with bodies whose size depends on their address: odd-sized data next to '.even'), inserted binaries, included files, 1-3 linked files, random "
                 "even link bases; plus the 21 practice programs. For each: hook-trace invariant, announced sizes, whole-program model. "
                 "distinct = distinct program texts; non-trivial = at least 5 traced statements")
-    feat = {"forward_sizes": True, "export": 0.15, "repeat_odd": True, "bare_data": True}
+    feat = {"forward_sizes": True, "export": 0.15, "repeat_odd": True, "bare_data": True, "odd_words": True}
     n = 1500 if ctx.thorough else 250
     reqs, jobs = [], []
     for _ in range(n):
@@ -178,6 +178,40 @@ def run(ctx):
                 ctx.violation("a corpus program does not assemble", inp, expected="ok", observed=r.summary())
             else:
                 trace_invariant(ctx, r, inp, dict(files))
+        finally:
+            impl.drop_scratch(d)
+
+    # ---- shapes that are refused today (a word list left on an odd address): were one accepted, its addresses must still be
+    # where its bytes land - with the address of the list known (a '.link' above) or not (no '.link', a size known later
+    # before it, an included file)
+    srng = ctx.rng("c02-refused")
+    for _ in range(300 if ctx.thorough else 60):
+        d = impl.scratch_dir()
+        try:
+            lst = srng.choice(["10, 20, 30", "k", "1", "tab, flag", "177777, 0"])
+            body = ["msg: .asci%s \"%s\"" % (srng.choice("iz"), "OK"[:srng.randint(1, 2)])]
+            if srng.random() < 0.5:
+                body.insert(0, "nop")
+            body += [".byte 1"] if srng.random() < 0.3 else []
+            body += ["tab: " + lst, "flag: .byte 377", ".even", "ptrs: .word msg, tab, flag, ptrs", "k = 5"]
+            where = srng.choice(["link", "nolink", "late", "include", "include"])
+            if where == "include":
+                with open(os.path.join(d, "tbl.mac"), "w", encoding="utf-8") as f:
+                    f.write("\n".join(body[:-2]) + "\n")
+                text = ".link 1000\nstart: mov #tab, r0\nhalt\n.include \"tbl.mac\"\n.even\nptrs: .word msg, tab, flag, ptrs, start\nk = 5\n"
+            elif where == "late":
+                text = ".link 2000\n.blkb n\n" + "\n".join(body) + "\nn = %d\n" % srng.randint(0, 5)
+            else:
+                text = (".link %o\n" % srng.choice([0o1000, 0o40000]) if where == "link" else "") + "\n".join(body) + "\n"
+            files = [(os.path.join(d, "m.mac"), text)]
+            r = impl.assemble(files, want_symbols=True)
+            inp = {"files": [("m.mac", text)], "nmain": 1, "main_paths": [files[0][0]]}
+            ctx.case(("refused-shape", text), nontrivial=False)
+            ctx.count("word list on an odd address (%s): %s" % (where, "refused" if r.outcome == "failed" else r.outcome))
+            if r.outcome == "ok":
+                trace_invariant(ctx, r, inp, dict(files))
+            elif r.outcome != "failed":
+                ctx.violation("a small program ended in " + r.outcome, inp, expected="a result or a reported error", observed=r.exc)
         finally:
             impl.drop_scratch(d)
 
